@@ -270,6 +270,11 @@ def cli_shard(shard_i, nshards, payload):
             planted = None
             if i % 2:
                 faults = [(c, s, m) for c, s, m, _ in vgen.plant_all(decls) if not s.endswith("rhs-enum-target")]
+                # every other time a fault whose diagnostic has labels in two declarations (the invocation and the
+                # function block, the external and the global): in different files once the unit is spread out
+                two = [f for f in faults if f[0] in ("P0006", "P0007", "P0008", "P0009", "P0018")]
+                if two and i % 4 == 1:
+                    faults = two
                 if faults:
                     planted, _, decls = rng.choice(faults)
             texts = [vgen.render_decl(d) for d in decls]
@@ -335,7 +340,7 @@ def run(tier, seed):
     avoid_faults = sorted({a for f in core.load_findings(PROP) if f.get("status") == "open" for a in f.get("atoms", [])})
     payload = {"seed": seed, "avoid": avoid, "avoid_faults": [],
                "n_units": 96 if tier == "quick" else 1500, "budget": 260 if tier == "quick" else 1300,
-               "faults_per_unit": 3 if tier == "quick" else 6, "n_cli": 32 if tier == "quick" else 400}
+               "faults_per_unit": 3 if tier == "quick" else 6, "n_cli": 64 if tier == "quick" else 800}
     parts = core.run_sharded(shard, payload)
     parts += core.run_sharded(cli_shard, payload)
     res = core.Result.merge(parts)
